@@ -80,9 +80,16 @@ def main() -> None:  # noqa: C901
         eng.external_values[f"pysdmx.model.dataflow.Role.{n}"] = c
 
     def component(tag: str) -> ObjV:
+        # the other plain facets of a pysdmx Component are arbitrary too (optional texts as arbitrary strings): the documented
+        # mapping does not depend on them, so code that looks at one of them has to give the same component for every value
         return ObjV(builtin_class("SDMXComponent"), {"id": eng.sym_str(f"{tag}.id"),
                                                       "dtype": eng.sym_enum(f"{tag}.dtype", dt_sort),
-                                                      "role": eng.sym_enum(f"{tag}.role", role_sort)})
+                                                      "role": eng.sym_enum(f"{tag}.role", role_sort),
+                                                      "required": eng.sym_bool(f"{tag}.required"),
+                                                      "attachment_level": eng.sym_str(f"{tag}.attachment_level"),
+                                                      "name": eng.sym_str(f"{tag}.name"),
+                                                      "description": eng.sym_str(f"{tag}.description"),
+                                                      "urn": eng.sym_str(f"{tag}.urn")})
 
     def structure(kind: str, shape: Tuple[int, int, int]) -> Tuple[ObjV, List[ObjV]]:
         comps = [[component(f"{lst}{i}") for i in range(n)] for lst, n in zip(("dim", "mea", "att"), shape)]
@@ -128,7 +135,8 @@ def main() -> None:  # noqa: C901
                 name_arg = eng.sym_str("dataset_name") if dsname == "given" else None
                 paths = eng.explore(fn, [s, name_arg])
                 tag = f"{kind}{shape}-name-{dsname}"
-                mv = [c.attrs["dtype"].term.sx for c in comps] + [c.attrs["role"].term.sx for c in comps]
+                mv = [c.attrs["dtype"].term.sx for c in comps] + [c.attrs["role"].term.sx for c in comps] + \
+                     [c.attrs[k].sx for c in comps for k in ("required", "attachment_level")]
                 all_doc = And(*[spec_type(c)[0] for c in comps])
 
                 def post_ret(p: PathResult, comps: List[ObjV] = comps, s: ObjV = s, name_arg: Any = name_arg) -> Any:
@@ -202,7 +210,9 @@ def main() -> None:  # noqa: C901
     chk.extra.update({"installed_pysdmx_datatypes": len(dt_values), "datatypes_without_documented_mapping": missing_in_docs,
                       "shapes": [list(s) for s in shapes], "functions_inlined": sorted(eng.inlined), "exhaustive": True})
     chk.assume("pysdmx object model: structure.components.{dimensions,measures,attributes} are lists of components "
-               "with .id/.dtype/.role; DataType is a str-enum whose members hash/compare as their value strings")
+               "with .id/.dtype/.role plus the plain facets .required/.attachment_level/.name/.description/.urn (arbitrary; "
+               "optional texts modelled as arbitrary strings, None not distinguished); a component attribute outside this "
+               "list leaves the subset (undecided); DataType is a str-enum whose members hash/compare as their value strings")
     chk.assume("loop over components has no cross-iteration state other than list append (checked for the explored "
                "list lengths; independence of length is the map-loop meta-argument, not proved by the solver)")
     chk.assume("pysdmx XML/JSON readers and run_sdmx URN matching are not under contract")
@@ -287,14 +297,17 @@ def native_replay(model: Dict[str, str], comps: List[ObjV], kind: str, shape: Tu
     h = importlib.reload(importlib.import_module("vtlengine.files.sdmx_handler"))
     role_names = list(role_consts)
 
+    facets: List[Dict[str, Any]] = []
+
     def build(dtypes: List[str], roles: List[str]) -> Any:
         cs = []
         for i, (d, r) in enumerate(zip(dtypes, roles)):
-            kw: Dict[str, Any] = {}
+            kw: Dict[str, Any] = {"required": True}
             if r == "ATTRIBUTE":
                 kw["attachment_level"] = "O"
-            cs.append(Component(id=f"C{i}", required=True, role=Role[r], concept=Concept(f"C{i}"),
-                                local_dtype=DataType(d), **kw))
+            if i < len(facets):
+                kw.update({k: v for k, v in facets[i].items() if not (k == "attachment_level" and r != "ATTRIBUTE")})
+            cs.append(Component(id=f"C{i}", role=Role[r], concept=Concept(f"C{i}"), local_dtype=DataType(d), **kw))
         return DataStructureDefinition(id="DSD", agency="AG", version="1.0", components=Components(cs))
 
     dts, rls = [], []
@@ -303,6 +316,13 @@ def native_replay(model: Dict[str, str], comps: List[ObjV], kind: str, shape: Tu
         k = c.attrs["dtype"].term.sx
         dts.append(dt_values[core.smt_int(model[k])] if k in model else "String")
         rls.append(lst_role)   # pysdmx files components into the three lists by role
+        fc: Dict[str, Any] = {}
+        a, rq = c.attrs.get("attachment_level"), c.attrs.get("required")
+        if a is not None and a.sx in model:
+            fc["attachment_level"] = core.smt_str(model[a.sx])
+        if rq is not None and rq.sx in model:
+            fc["required"] = core.smt_bool(model[rq.sx])
+        facets.append(fc)
     want = []
     for i, (d, r) in enumerate(zip(dts, rls)):
         want.append({"name": f"C{i}", "role": doc_roles[r][0], "type": doc_types.get(d), "nullable": doc_roles[r][1]})
@@ -325,7 +345,7 @@ def native_replay(model: Dict[str, str], comps: List[ObjV], kind: str, shape: Tu
                       "(documented: InputValidationException)")
     else:
         bad = got != want
-        detail.append(f"dtypes={dts} roles={rls}: real to_vtl_json (after converting a same-id twin) {outcome} {got}; "
+        detail.append(f"dtypes={dts} roles={rls} facets={facets}: real to_vtl_json (after converting a same-id twin) {outcome} {got}; "
                       f"documented {want}")
     return bad, " ".join(detail), {"dtypes": dts, "roles": rls, "real": got if got is not None else outcome, "documented": want}
 
